@@ -507,6 +507,16 @@ def c07(tier, seed):
     c.cov["bounds"] = {"model": "N in 0..%d, every 0/1 script of length <= N+3, a panic at every poll index, 8 hint kinds" % (3 if tier == "quick" else 5),
                        "large N": "N in %s: counts N-1, N, N+1, N+3, not fused, 6 hint kinds, source panics at 4 positions" % ([17, 33, 97] if tier == "quick" else [16, 17, 32, 33, 64, 65, 97, 1024])}
     c.conform(binary, with_etys(scns, ["tk", "zst"] if tier == "quick" else ["tk", "zst", "plain"]), "collect")
+    # a length that cannot be allocated (2^50, coded 2 000 000 000): sources whose hint rules it out are refused - no
+    # allocation attempt, which would end the process
+    huge = []
+    for sc, h in (([1, 1, 1], [0, 3]), ([1, 1, 1], None), ([], [0, 0]), ([1] * 5, [2, 5]), ([1, 1, 0, 1], [0, 1000])):
+        for op in ("try_boxed_from_iter", "boxed_from_iter"):
+            st = {"op": op, "n": 2000000000, "okind": "box", "script": sc}
+            if h is not None:
+                st["hint"] = h
+            huge.append({"case": op, "prop": "C07", "ety": "tk", "steps": [st], "d": {"op": op, "n": "2^50", "script": sc, "hint": h}})
+    c.conform(binary, with_etys(huge, ["tk", "plain"]), "collect-unallocatable")
     c.conform(binary, with_etys(collect_scripts_large([17, 33, 97] if tier == "quick" else [16, 17, 32, 33, 64, 65, 97, 1024], "C07"), ["tk", "plain"] if tier == "quick" else ["tk", "zst", "plain"]), "collect-large")
     if tier != "quick":
         c.neg("MC_Collect", "NEG_Collect_noprobe")
